@@ -24,6 +24,13 @@ def render(lines, rnd, variant):
     crlf = (variant // 8) % 2 == 1
     flags_first = (variant // 16) % 2 == 1
     indent = ["", "  ", "\t", "    "][variant % 4]
+    cat_where = (variant // 64) % 3
+    if cat_where and lines and lines[0]["kind"] == "CATALOG":
+        # CATALOG is a disc-level line that may stand anywhere in the sheet: after the first track's lines, or last
+        lines = list(lines)
+        cat = lines.pop(0)
+        second = next((i for i, ln in enumerate(lines) if ln["kind"] == "TRACK" and i > 0), len(lines))
+        lines.insert(second if cat_where == 1 else len(lines), cat)
     if flags_first:
         # the order of a track's ISRC and FLAGS lines is a matter of spelling too
         lines = list(lines)
@@ -86,7 +93,7 @@ def run(pid):
     items = []
     iid = 0
     for s in sheets:
-        for variant in ([rnd.randint(0, 63)] if t == "quick" else [rnd.randint(0, 63), rnd.randint(0, 63), 0]):
+        for variant in ([rnd.randint(0, 191)] if t == "quick" else [rnd.randint(0, 191), rnd.randint(0, 191), 0]):
             iid += 1
             text, isrcs, catalog = render(s["lines"], rnd, variant)
             items.append({"id": iid, "variant": variant, "text": text, "total": s["expected"]["leadout"] * 588, "expected": s["expected"],
